@@ -63,6 +63,56 @@ def check_fee_lookup_same_asset(ctx, model, crate, rule):
     ctx.floor(rule, "%s pending-fee lookups" % crate, n, 5)
 
 
+def check_raw_balance_single_consumer(ctx, model, crate, rule):
+    """Where a pending fee is subtracted from a balance, that subtraction is the ONLY consumer of the unreduced balance:
+    no arithmetic, comparison, message or aggregate in the same function may read the raw amount next to its fee-reduced
+    value (provenance is kill-aware, so reads after `x.amount = x.amount.checked_sub(fee)?` see the reduced value)."""
+    from ..mir import _TRANSPARENT_RE
+    n = 0
+    for p in sorted(model.all_paths(crate)):
+        if "::migrations::" in p:
+            continue
+        v = model.view(p)
+        for b, t in v.calls_to(r"helpers::get_protocol_fee_for_asset$"):
+            for xb, xt in v.calls_to(r"Uint128::checked_sub$|<cosmwasm_std::Uint128 as std::ops::Sub>::sub$|Uint128::saturating_sub$"):
+                a1 = v.origins_of_operand(xt["args"][1], at=v.at_term(xb))
+                if not any(o.kind == "call" and o.b == "%s:bb%d" % (v.path, b) for o in a1):
+                    continue
+                raw = {o for o in v.origins_of_operand(xt["args"][0], at=v.at_term(xb)) if o.proj and o.proj[-1] == "amount"}
+                if not raw:
+                    continue
+                n += 1
+                others = []
+
+                def is_raw(op, at):
+                    if op["k"] not in ("copy", "move"):
+                        return False
+                    os_ = v.origins_of_operand(op, at=at)
+                    return bool(os_ & raw)
+                for cb, ct in v.iter_calls():
+                    if _TRANSPARENT_RE.search(mname(ct)):
+                        continue
+                    for ai, a in enumerate(ct["args"]):
+                        if (cb, ai) == (xb, 0):
+                            continue
+                        if is_raw(a, v.at_term(cb)):
+                            others.append("%s arg %d (line %s)" % (mname(ct).split("::")[-1], ai, ct.get("ln")))
+                for sb, si, st in v.iter_stmts():
+                    rv = st["rv"]
+                    ops = []
+                    if rv["r"] in ("bin", "checkedbin"):
+                        ops = [rv["a"], rv["b"]]
+                    elif rv["r"] == "agg":
+                        ops = rv["ops"]
+                    for a in ops:
+                        if is_raw(a, (sb, si)):
+                            others.append("%s operand (line %s)" % (rv["r"], st.get("ln")))
+                ctx.ob(rule, "%s|raw-balance-only-feeds-the-fee-subtraction" % p, not others,
+                       "unreduced balance %s is also read by: %s" % (sorted(map(repr, raw)), others) if others else
+                       "unreduced balance %s has the fee subtraction as its only consumer" % sorted(map(repr, raw)), v.where(xb))
+    ctx.floor(rule, "%s fee subtractions from a balance" % crate, n, 5)
+
+
 def check_v1_pools(ctx, model, crate, rule):
     """V1: every function reading pool balances (query_pools) for pricing or shares subtracts the pending protocol fees."""
     info = "PairInfoRaw" if crate == "terraswap_pair" else "TrioInfoRaw"
@@ -86,9 +136,9 @@ def check_v1_pools(ctx, model, crate, rule):
     ctx.floor(rule, "%s functions reading pool balances" % crate, n, 7)
 
 
-def check_v2_v3_pool(ctx, model, crate, rule):
+def check_v2_v3_pool(ctx, model, crate, rule, fns=("swap", "provide_liquidity")):
     """V2/V3: funds validation dominates pricing; native deposits are subtracted."""
-    for fn in ("swap", "provide_liquidity"):
+    for fn in fns:
         p = "%s::commands::%s" % (crate, fn)
         v = ctx.view(p, rule)
         if v is None:
@@ -109,7 +159,7 @@ def check_v2_v3_pool(ctx, model, crate, rule):
             ctx.ob(rule, "%s|validated-against-caller-funds" % p, bool(a1) and all(o.kind == "param" and "MessageInfo" in v.local_ty(o.a) for o in a1),
                    "validated against %s" % sorted(map(repr, a1)), v.where(b))
     p = "%s::commands::provide_liquidity" % crate
-    v = ctx.view(p, rule)
+    v = ctx.view(p, rule) if "provide_liquidity" in fns else None
     if v is not None:
         # native deposit subtraction: checked_sub(pool.amount, deposits[i]) and cw20 TransferFrom(deposits[i])
         sub = False
@@ -230,3 +280,50 @@ def check_v5_rounding(ctx, model, fns, rule):
         if not model.has(p):
             ctx.missing(rule, p)
     return n
+
+
+def check_direct_withdraw(ctx, model, rule, execute_path, withdraw_rx, item_suffix, lp_proj):
+    """The direct (token-factory LP) withdrawal entry: the shares handed in are the attached coins, so the call into the
+    withdraw routine must be dominated by `funds.len() == 1` and `funds[0].denom == <LP denom loaded from storage>` and
+    must pass funds[0].amount -- comparing with any other denom (the deposit asset, say) turns ordinary coins into shares."""
+    v = ctx.view(execute_path, rule)
+    if v is None:
+        return
+    info = None
+    for i in range(1, v.argc + 1):
+        if "MessageInfo" in v.local_ty(i):
+            info = i
+    calls = v.calls_to(withdraw_rx)
+    if not calls or info is None:
+        ctx.missing(rule, "direct withdraw call in %s" % execute_path)
+        return
+    funds = lambda os_, last: bool(os_) and all(o.kind == "param" and o.a == info and o.proj and o.proj[0] == "funds" and o.proj[-1] == last for o in os_)
+    lp = lambda os_: any(o.kind == "load" and o.a.endswith(item_suffix) and tuple(o.proj) == tuple(lp_proj) for o in os_) and all(
+        (o.kind == "load" and o.a.endswith(item_suffix) and tuple(o.proj) == tuple(lp_proj)) or (o.kind == "call" and o.a.endswith("String::new")) for o in os_)
+    den_edges, len_edges = [], []
+    for b, c, _ in switch_conds(v):
+        if c.kind != "cmp" or c.op not in ("==", "!="):
+            continue
+        at = cond_at(v, c)
+        oa, ob = v.origins_of_operand(c.a, at=at), v.origins_of_operand(c.b, at=at)
+        te, fe = cmp_true_false_edges(v, b, c)
+        eq = te if c.op == "==" else fe
+        if (funds(oa, "denom") and lp(ob)) or (funds(ob, "denom") and lp(oa)):
+            den_edges += eq
+        for x, y in ((oa, c.b), (ob, c.a)):
+            if x and all(o.kind == "call" and o.a.endswith("Vec::len") for o in x) and const_of(v, y, at) == 1:
+                # the length that is compared is that of info.funds
+                ok_len = True
+                for o in x:
+                    cc = call_of(v, o)
+                    ok_len = ok_len and cc is not None and funds(v.origins_of_operand(cc[1]["args"][0], at=v.at_term(cc[0])), "funds")
+                if ok_len:
+                    len_edges += eq
+    for b, t in calls:
+        amt = v.origins_of_operand(t["args"][-1], at=v.at_term(b))
+        ok_amt = funds(amt, "amount")
+        ok_den = bool(den_edges) and v.edge_dominated(b, den_edges)
+        ok_len = bool(len_edges) and v.edge_dominated(b, len_edges)
+        ctx.ob(rule, "%s|direct-withdraw|shares-are-the-attached-lp-coins" % execute_path, ok_amt and ok_den and ok_len,
+               "withdraw amount from %s (must be info.funds[0].amount): %s; dominated by funds[0].denom == stored LP denom: %s; by funds.len() == 1: %s"
+               % (sorted(map(repr, amt)), ok_amt, ok_den, ok_len), v.where(b))
